@@ -34,6 +34,7 @@ def parseEntry (s : String) : Entry :=
                       else if t == "capO" then .ok else .absent }
     else if t.startsWith "lk" then { e with lockKeyEmpty := bit t "lk" }
     else if t.startsWith "li" then { e with lockIdEmpty := bit t "li" }
+    else if t == "t0" || t == "t1" then { e with telemetryOff := t == "t1" }
     else e) ({} : Entry)
 
 def parseShape (s : String) : Shape :=
